@@ -15,6 +15,7 @@ import (
 	"hash/fnv"
 	"os"
 	"path/filepath"
+	"runtime"
 	"sort"
 	"strconv"
 	"strings"
@@ -416,4 +417,22 @@ func PanicSite(p string) string {
 		break
 	}
 	return first + "@" + site
+}
+
+// PanicFrame returns the top maddy (non-harness) function on the stack of a
+// panic being recovered; call it from the deferred function.
+func PanicFrame(skip int) string {
+	pcs := make([]uintptr, 64)
+	n := runtime.Callers(skip, pcs)
+	fr := runtime.CallersFrames(pcs[:n])
+	for {
+		f, more := fr.Next()
+		fn := f.Function
+		if strings.HasPrefix(fn, "github.com/foxcpp/maddy/") && !strings.Contains(fn, "/internal/verif/") && !strings.Contains(fn, "TestVerif") && !strings.Contains(f.File, "zz_verif") {
+			return fn[strings.LastIndex(fn, "/")+1:]
+		}
+		if !more {
+			return "?"
+		}
+	}
 }
